@@ -3,6 +3,7 @@ package props
 import (
 	"bufio"
 	"bytes"
+	"errors"
 	"fmt"
 	"io"
 	"os"
@@ -243,6 +244,100 @@ func c18CheckBigWrite(c c18BigWrite) engine.Result {
 	res.Nontrivial = 1
 	return res
 }
+
+// ---- ReadFrom over generated streams of several GiB (counts beyond 32 bits)
+
+type c18HugeCase struct {
+	Packets int64 `json:"packets"`
+	Tail    int   `json:"tail_bytes"`
+	Chunk   int   `json:"reader_chunk"`
+	FailAt  int64 `json:"failing_packet_write"` // -1 = none
+}
+
+// c18HugeReader hands out Packets packets whose first 8 bytes are their index (big endian) and whose other
+// bytes follow from it, Chunk bytes per Read (cutting packets), then Tail bytes, then EOF.
+type c18HugeReader struct {
+	total, pos int64
+	chunk      int
+}
+
+func c18HugeByte(off int64) byte {
+	idx, i := off/188, int(off%188)
+	if i < 8 {
+		return byte(idx >> uint(8*(7-i)))
+	}
+	return byte(idx) ^ byte(i*7)
+}
+
+func (g *c18HugeReader) Read(p []byte) (int, error) {
+	if g.pos >= g.total {
+		return 0, io.EOF
+	}
+	n := len(p)
+	if n > g.chunk {
+		n = g.chunk
+	}
+	if int64(n) > g.total-g.pos {
+		n = int(g.total - g.pos)
+	}
+	for i := 0; i < n; i++ {
+		p[i] = c18HugeByte(g.pos + int64(i))
+	}
+	g.pos += int64(n)
+	return n, nil
+}
+
+func c18CheckHuge(c c18HugeCase) engine.Result {
+	var res engine.Result
+	total := c.Packets*188 + int64(c.Tail)
+	rd := &c18HugeReader{total: total, chunk: c.Chunk}
+	var calls, bad int64 = 0, -1
+	w := packet.IOWriter(packet.PacketWriterFunc(func(p *packet.Packet) (int, error) {
+		idx := calls
+		calls++
+		if bad < 0 {
+			for _, i := range [...]int{0, 1, 2, 3, 4, 5, 6, 7, 8, 100, 187} {
+				if p[i] != c18HugeByte(idx*188+int64(i)) {
+					bad = idx
+					break
+				}
+			}
+		}
+		if idx == c.FailAt {
+			return 0, errC18Huge
+		}
+		return 188, nil
+	}))
+	var n int64
+	var err error
+	if engine.Guard(&res, "ReadFrom", func() { n, err = c18ReadFrom(w, rd) }) {
+		return res
+	}
+	res.Evals++
+	res.Nontrivial = 1
+	desc := fmt.Sprintf("generated stream of %d packets + %d bytes, %d bytes per Read, packet write #%d fails", c.Packets, c.Tail, c.Chunk, c.FailAt)
+	wantCalls, wantN := c.Packets, c.Packets*188
+	var wantErr error
+	switch {
+	case c.FailAt >= 0:
+		wantCalls, wantN, wantErr = c.FailAt+1, c.FailAt*188, errC18Huge
+	case c.Tail > 0:
+		wantErr = gots.ErrInvalidPacketLength
+	}
+	if bad >= 0 {
+		res.Failf("ReadFrom|huge-stream|packets", "%s: delivery #%d does not carry packet %d", desc, bad, bad)
+	}
+	if calls != wantCalls {
+		res.Failf("ReadFrom|huge-stream|deliveries", "%s: %d deliveries, want %d", desc, calls, wantCalls)
+	}
+	if n != wantN || err != wantErr {
+		res.Failf("ReadFrom|huge-stream|count", "%s: returned %d, %v; want %d, %v", desc, n, err, wantN, wantErr)
+	}
+	res.Outcome(err)
+	return res
+}
+
+var errC18Huge = errors.New("c18: scripted packet writer failure (huge stream)")
 
 // c18Content: call base+j of the packet writer must have carried exactly packet j of data.
 func c18Content(res *engine.Result, sig string, spw *ref.ScriptedPacketWriter, base int, data []byte, desc func() string) {
@@ -724,6 +819,22 @@ func init() {
 			Check: c18CheckLong, Batch: 8,
 		},
 	}
+	scen = append(scen, &engine.Enum[c18HugeCase]{
+		Name: "readfrom-huge-streams",
+		Rule: "ReadFrom over GENERATED streams (no memory) whose byte count passes 2^31 and 2^32: 11422330 and 22845572 packets (2^31 / 2^32 bytes + a few packets; thorough also 2^33 bytes), tail 0 or 100 bytes, 1316 / 65536 / 1000000 bytes per Read, no failing write or one failing at packet 2^31/188+1: every delivery carries its own index in its first 8 bytes (checked together with bytes 8, 100, 187), the number of deliveries and the returned 64-bit count are exact",
+		Gen: func(r *engine.Run, emit func(c18HugeCase)) {
+			emit(c18HugeCase{Packets: 1<<31/188 + 3, Tail: 0, Chunk: 65536, FailAt: -1})
+			emit(c18HugeCase{Packets: 1<<31/188 + 3, Tail: 100, Chunk: 1316, FailAt: -1})
+			emit(c18HugeCase{Packets: 1<<32/188 + 3, Tail: 0, Chunk: 1000000, FailAt: -1})
+			emit(c18HugeCase{Packets: 1<<32/188 + 3, Tail: 100, Chunk: 65536, FailAt: -1})
+			emit(c18HugeCase{Packets: 1<<32/188 + 3, Tail: 0, Chunk: 65536, FailAt: 1<<31/188 + 1})
+			if r.Thorough() {
+				emit(c18HugeCase{Packets: 1<<33/188 + 3, Tail: 0, Chunk: 65536, FailAt: -1})
+				emit(c18HugeCase{Packets: 1<<33/188 + 3, Tail: 1, Chunk: 1316, FailAt: 1<<32/188 + 1})
+			}
+		},
+		Check: c18CheckHuge, Batch: 1,
+	})
 	scen = append(scen, &engine.Enum[c18NestCase]{
 		Name: "nested-adapters",
 		Rule: "outer ReadFrom (each of the 6 adapters) over 1..3 packets + tail {0,1,100} in pieces of {1,93,94,95,187,188,189,400} bytes; at EVERY Read call position the source itself first completes a Write of two packets and a ReadFrom of a 2.5-packet stream through a separate adapter (each of the 4 kinds) with its own packet writer: outer result judged as in readfrom-uniform-chunks, nested Write delivers its 2 packets (n = 376, nil), nested ReadFrom delivers its 2 packets (n = 376, invalid-length error); finds transfer state shared between adapter values",
